@@ -1,5 +1,5 @@
 import Witverif.Proofs.Scalar
-import Witverif.Generated.CastExprs
+import Witverif.Generated.CastExprs.Cpp
 /-! # C04 (backend half), backend `cpp`: the emitted `Bitcast` expressions
 
 `G.cpp_<Bitcast>_<probe>` lists the expressions the `cpp` generator emitted for that `Bitcast` on the
@@ -11,7 +11,7 @@ recovers every payload bit pattern.  Proof script: `scalar_tac` (fixed). -/
 namespace Witverif.Props.C04Backends.Cpp
 open Witverif.Scalar Witverif.Scalar.Spec
 namespace G
-export Witverif.Generated.CastExprs (cpp_F32ToI32_f32_s32 cpp_I32ToF32_f32_s32 cpp_F64ToI64_f64_s64 cpp_I64ToF64_f64_s64 cpp_I32ToI64_s32_s64 cpp_I64ToI32_s32_s64 cpp_F32ToI64_f32_s64 cpp_I64ToF32_f32_s64 cpp_None_s32_f32 cpp_I32ToI64_u32_f64 cpp_I64ToI32_u32_f64 cpp_F32ToI64_f32_f64 cpp_I64ToF32_f32_f64 cpp_F64ToI64_f64_f32 cpp_I64ToF64_f64_f32)
+export Witverif.Generated.CastExprs (cpp_F32ToI32_f32_s32 cpp_I32ToF32_f32_s32 cpp_F64ToI64_f64_s64 cpp_I64ToF64_f64_s64 cpp_I32ToI64_s32_s64 cpp_I64ToI32_s32_s64 cpp_F32ToI64_f32_s64 cpp_I64ToF32_f32_s64 cpp_None_s32_f32 cpp_I32ToI64_u32_f64 cpp_I64ToI32_u32_f64 cpp_F32ToI64_f32_f64 cpp_I64ToF32_f32_f64 cpp_F64ToI64_f64_f32 cpp_I64ToF64_f64_f32 cpp_I64ToP64_s64_string cpp_P64ToI64_s64_string cpp_I32ToP_s32_string cpp_PToI32_s32_string cpp_F32ToI32_I32ToP_f32_string cpp_PToI32_I32ToF32_f32_string cpp_F64ToI64_I64ToP64_f64_string cpp_P64ToI64_I64ToF64_f64_string)
 end G
 set_option maxRecDepth 8000
 
@@ -141,5 +141,53 @@ theorem cpp_I64ToF64_f64_f32_is_spec : ∀ e ∈ G.cpp_I64ToF64_f64_f32, e.IsSpe
 theorem f64_f32_roundtrip : RoundTrips G.cpp_F64ToI64_f64_f32 G.cpp_I64ToF64_f64_f32 := by
   unfold G.cpp_F64ToI64_f64_f32 G.cpp_I64ToF64_f64_f32; scalar_tac
 example : G.cpp_F64ToI64_f64_f32 ≠ [] ∧ G.cpp_I64ToF64_f64_f32 ≠ [] := by decide
+
+/-- cpp: `I64ToP64` (s64 payload into the i64 slot) is the canonical ABI conversion, all 2^64 patterns -/
+theorem cpp_I64ToP64_s64_string_is_spec : ∀ e ∈ G.cpp_I64ToP64_s64_string, e.IsSpec := by
+  unfold G.cpp_I64ToP64_s64_string; scalar_tac
+
+/-- cpp: `P64ToI64` (i64 slot back to the s64 payload) is the canonical ABI conversion, all 2^64 slot values -/
+theorem cpp_P64ToI64_s64_string_is_spec : ∀ e ∈ G.cpp_P64ToI64_s64_string, e.IsSpec := by
+  unfold G.cpp_P64ToI64_s64_string; scalar_tac
+/-- cpp: `P64ToI64 ∘ I64ToP64` recovers every s64 bit pattern -/
+theorem s64_string_roundtrip : RoundTrips G.cpp_I64ToP64_s64_string G.cpp_P64ToI64_s64_string := by
+  unfold G.cpp_I64ToP64_s64_string G.cpp_P64ToI64_s64_string; scalar_tac
+example : G.cpp_I64ToP64_s64_string ≠ [] ∧ G.cpp_P64ToI64_s64_string ≠ [] := by decide
+
+/-- cpp: `I32ToP` (s32 payload into the i32 slot) is the canonical ABI conversion, all 2^32 patterns -/
+theorem cpp_I32ToP_s32_string_is_spec : ∀ e ∈ G.cpp_I32ToP_s32_string, e.IsSpec := by
+  unfold G.cpp_I32ToP_s32_string; scalar_tac
+
+/-- cpp: `PToI32` (i32 slot back to the s32 payload) is the canonical ABI conversion, all 2^32 slot values -/
+theorem cpp_PToI32_s32_string_is_spec : ∀ e ∈ G.cpp_PToI32_s32_string, e.IsSpec := by
+  unfold G.cpp_PToI32_s32_string; scalar_tac
+/-- cpp: `PToI32 ∘ I32ToP` recovers every s32 bit pattern -/
+theorem s32_string_roundtrip : RoundTrips G.cpp_I32ToP_s32_string G.cpp_PToI32_s32_string := by
+  unfold G.cpp_I32ToP_s32_string G.cpp_PToI32_s32_string; scalar_tac
+example : G.cpp_I32ToP_s32_string ≠ [] ∧ G.cpp_PToI32_s32_string ≠ [] := by decide
+
+/-- cpp: `F32ToI32_I32ToP` (f32 payload into the i32 slot) is the canonical ABI conversion, all 2^32 patterns -/
+theorem cpp_F32ToI32_I32ToP_f32_string_is_spec : ∀ e ∈ G.cpp_F32ToI32_I32ToP_f32_string, e.IsSpec := by
+  unfold G.cpp_F32ToI32_I32ToP_f32_string; scalar_tac
+
+/-- cpp: `PToI32_I32ToF32` (i32 slot back to the f32 payload) is the canonical ABI conversion, all 2^32 slot values -/
+theorem cpp_PToI32_I32ToF32_f32_string_is_spec : ∀ e ∈ G.cpp_PToI32_I32ToF32_f32_string, e.IsSpec := by
+  unfold G.cpp_PToI32_I32ToF32_f32_string; scalar_tac
+/-- cpp: `PToI32_I32ToF32 ∘ F32ToI32_I32ToP` recovers every f32 bit pattern -/
+theorem f32_string_roundtrip : RoundTrips G.cpp_F32ToI32_I32ToP_f32_string G.cpp_PToI32_I32ToF32_f32_string := by
+  unfold G.cpp_F32ToI32_I32ToP_f32_string G.cpp_PToI32_I32ToF32_f32_string; scalar_tac
+example : G.cpp_F32ToI32_I32ToP_f32_string ≠ [] ∧ G.cpp_PToI32_I32ToF32_f32_string ≠ [] := by decide
+
+/-- cpp: `F64ToI64_I64ToP64` (f64 payload into the i64 slot) is the canonical ABI conversion, all 2^64 patterns -/
+theorem cpp_F64ToI64_I64ToP64_f64_string_is_spec : ∀ e ∈ G.cpp_F64ToI64_I64ToP64_f64_string, e.IsSpec := by
+  unfold G.cpp_F64ToI64_I64ToP64_f64_string; scalar_tac
+
+/-- cpp: `P64ToI64_I64ToF64` (i64 slot back to the f64 payload) is the canonical ABI conversion, all 2^64 slot values -/
+theorem cpp_P64ToI64_I64ToF64_f64_string_is_spec : ∀ e ∈ G.cpp_P64ToI64_I64ToF64_f64_string, e.IsSpec := by
+  unfold G.cpp_P64ToI64_I64ToF64_f64_string; scalar_tac
+/-- cpp: `P64ToI64_I64ToF64 ∘ F64ToI64_I64ToP64` recovers every f64 bit pattern -/
+theorem f64_string_roundtrip : RoundTrips G.cpp_F64ToI64_I64ToP64_f64_string G.cpp_P64ToI64_I64ToF64_f64_string := by
+  unfold G.cpp_F64ToI64_I64ToP64_f64_string G.cpp_P64ToI64_I64ToF64_f64_string; scalar_tac
+example : G.cpp_F64ToI64_I64ToP64_f64_string ≠ [] ∧ G.cpp_P64ToI64_I64ToF64_f64_string ≠ [] := by decide
 
 end Witverif.Props.C04Backends.Cpp
